@@ -6,6 +6,8 @@ from typing import final
 
 from mypy_extensions import mypyc_attr
 
+from pyjelly.errors import JellyConformanceError
+
 
 @mypyc_attr(allow_interpreted_subclasses=True)
 @final
@@ -32,9 +34,17 @@ class Lookup:
         self.data = OrderedDict[str, int]()
         self.max_size = max_size
         self._evicting = False
+        # keys used by the row being encoded; None until begin_row() is first called
+        self._row_keys: set[str] | None = None
+
+    def begin_row(self) -> None:
+        """Start a new row: its keys must all stay resident until it is written."""
+        self._row_keys = set()
 
     def make_last_to_evict(self, key: str) -> None:
         self.data.move_to_end(key)
+        if self._row_keys is not None:
+            self._row_keys.add(key)
 
     def insert(self, key: str) -> int:
         if not self.max_size:
@@ -42,12 +52,22 @@ class Lookup:
             raise IndexError(msg)
         assert key not in self.data, f"key {key!r} already present"
         if self._evicting:
+            if self._row_keys is not None and len(self._row_keys) >= self.max_size:
+                # every resident entry is referenced by the current row: evicting one
+                # would make the row, whose entries precede it, decode to other strings
+                msg = (
+                    "a single statement needs more lookup entries "
+                    f"than the table of size {self.max_size} can hold"
+                )
+                raise JellyConformanceError(msg)
             _, index = self.data.popitem(last=False)
             self.data[key] = index
         else:
             index = len(self.data) + 1
             self.data[key] = index
             self._evicting = index == self.max_size
+        if self._row_keys is not None:
+            self._row_keys.add(key)
         return index
 
     def __repr__(self) -> str:
